@@ -23,6 +23,7 @@ type timeTest struct {
 	field string // compared field
 	owner ssa.Value
 	iff   *ssa.If
+	older bool // the test is true when the stored time lies further back than the threshold
 }
 
 func isTimeMethod(call *ssa.Call, name string) bool {
@@ -30,36 +31,69 @@ func isTimeMethod(call *ssa.Call, name string) bool {
 	return sc != nil && sc.String() == "(time.Time)."+name
 }
 
+// timeExprOf: v as "now + offset" or "<field> + offset" (through Time.Add with a constant duration).
+func timeExprOf(v ssa.Value, depth int) (isNow bool, field string, owner ssa.Value, off int64, ok bool) {
+	if depth > 4 {
+		return
+	}
+	switch x := v.(type) {
+	case *ssa.Call:
+		if sc := x.Call.StaticCallee(); sc != nil && sc.String() == "time.Now" {
+			return true, "", nil, 0, true
+		}
+		if isTimeMethod(x, "Add") && len(x.Call.Args) == 2 {
+			k, isK := constInt(x.Call.Args[1])
+			if !isK {
+				return
+			}
+			n, f, o, b, ok2 := timeExprOf(x.Call.Args[0], depth+1)
+			return n, f, o, b + k, ok2
+		}
+	case *ssa.UnOp:
+		if fa, isFA := x.X.(*ssa.FieldAddr); isFA {
+			st := fa.X.Type().Underlying().(*types.Pointer).Elem().Underlying().(*types.Struct)
+			return false, st.Field(fa.Field).Name(), fa.X, 0, true
+		}
+	}
+	return
+}
+
+// findTimeTests: comparisons of the current time with a stored time, normalised to "now - field > D" (older, k = -D as
+// in now.Add(-D).After(field)) or "now - field < D" (younger: the test is true while the stored time is recent).
 func findTimeTests(fn *ssa.Function) []timeTest {
 	var out []timeTest
 	for _, b := range fn.Blocks {
 		for _, ins := range b.Instrs {
 			call, ok := ins.(*ssa.Call)
-			if !ok || !isTimeMethod(call, "After") {
+			if !ok || len(call.Call.Args) != 2 {
 				continue
 			}
-			add, ok := call.Call.Args[0].(*ssa.Call)
-			if !ok || !isTimeMethod(add, "Add") {
+			after := isTimeMethod(call, "After")
+			if !after && !isTimeMethod(call, "Before") {
 				continue
 			}
-			now, ok := add.Call.Args[0].(*ssa.Call)
-			if !ok || now.Call.StaticCallee() == nil || now.Call.StaticCallee().String() != "time.Now" {
+			aNow, aF, aO, aK, okA := timeExprOf(call.Call.Args[0], 0)
+			bNow, bF, bO, bK, okB := timeExprOf(call.Call.Args[1], 0)
+			if !okA || !okB || aNow == bNow {
 				continue
 			}
-			k, ok := constInt(add.Call.Args[1])
-			if !ok {
-				continue
+			tt := timeTest{fn: fn, after: call}
+			// A > B (After) or A < B (Before)
+			nowLeft := aNow
+			if nowLeft {
+				tt.field, tt.owner = bF, bO
+			} else {
+				tt.field, tt.owner = aF, aO
 			}
-			ld, ok := call.Call.Args[1].(*ssa.UnOp)
-			if !ok {
-				continue
+			// now + kn  ?  field + kf
+			kn, kf := aK, bK
+			if !nowLeft {
+				kn, kf = bK, aK
 			}
-			fa, ok := ld.X.(*ssa.FieldAddr)
-			if !ok {
-				continue
-			}
-			st := fa.X.Type().Underlying().(*types.Pointer).Elem().Underlying().(*types.Struct)
-			tt := timeTest{fn: fn, after: call, k: k, field: st.Field(fa.Field).Name(), owner: fa.X}
+			d := kf - kn // now - field  ?  d
+			older := (nowLeft && after) || (!nowLeft && !after)
+			tt.older = older
+			tt.k = -d
 			for _, ref := range *call.Referrers() {
 				if iff, isIf := ref.(*ssa.If); isIf {
 					tt.iff = iff
@@ -261,10 +295,16 @@ func runC14(c *Ctx) {
 		if sT.k != -5e9 || sT.field != "updateTime" {
 			st, d = report.Violated, fmt.Sprintf("the re-request test compares now%+.1fs with .%s (expected now-5s with the last-progress time updateTime)", float64(sT.k)/1e9, sT.field)
 		}
+		if !sT.older {
+			st, d = report.Violated, "the re-request test is true while the last progress is *younger* than the threshold (the comparison is the wrong way round): transfers that are making progress are asked for again, idle ones never"
+		}
 		R.Add("S.thresholds", shortFn(sT.fn)+" / idle test", c.P.RelPos(sT.after.Pos()), st, d)
 		st, d = report.Discharged, ""
 		if eT.k != -60e9 || eT.field != "createTime" {
 			st, d = report.Violated, fmt.Sprintf("the expiry test compares now%+.1fs with .%s (expected now-60s with the creation time createTime: the last-progress time is refreshed by every packet and every re-request, so a transfer would never expire)", float64(eT.k)/1e9, eT.field)
+		}
+		if !eT.older {
+			st, d = report.Violated, "the expiry test is true while the transfer is *younger* than the limit (the comparison is the wrong way round): a transfer is discarded at the end of the read that started it, and nothing ever expires after 60 s"
 		}
 		R.Add("S.thresholds", shortFn(eT.fn)+" / expiry test", c.P.RelPos(eT.after.Pos()), st, d)
 		// createTime written only at creation (composite literal of a fresh record)
@@ -882,4 +922,35 @@ func (c *Ctx) recordCreationRule(rule string) {
 			R.Add(rule, shortFn(cp)+" / the record (creation time, first header) is created by packet 1", c.P.RelPos(cp.Pos()), st, d)
 		}
 	}
+}
+
+// transferSurvivesReads (C05): the sweep that runs after every read discards a pending transfer only when its creation
+// lies further back than a positive limit. With the comparison the wrong way round - or a limit of zero - the slot table
+// created by packet 1 is gone before packet 2 arrives in the next read, and nothing is ever reassembled across reads.
+func (c *Ctx) transferSurvivesReads(rule string) {
+	R := c.R
+	R.Rules[rule] = "the expiry sweep removes a pending transfer only when the current time is later than its creation time plus a positive limit (normalised from the After/Before/Add forms): a transfer whose packets arrive in separate reads survives between them"
+	n := 0
+	for _, fn := range c.RepoFuncs("service") {
+		if len(storesToFieldAny(fn, "AgainPackageList")) > 0 {
+			continue // the re-request builder's idle test (C14)
+		}
+		for _, tt := range findTimeTests(fn) {
+			n++
+			st, d := report.Discharged, ""
+			switch {
+			case !tt.older:
+				st, d = report.Violated, "the sweep's test is true while the transfer is younger than the limit: every transfer is discarded at the end of the read that created it"
+			case -tt.k <= 0:
+				st, d = report.Violated, fmt.Sprintf("the sweep's limit is %.1fs: a transfer is discarded as soon as the clock moves", float64(-tt.k)/1e9)
+			case tt.field != "createTime":
+				st, d = report.Undecided, "the sweep compares the current time with ."+tt.field+", not with the creation time of the transfer"
+			}
+			R.Add(rule, shortFn(fn)+" / "+c.constructOf(fn, tt.after), c.P.RelPos(tt.after.Pos()), st, d)
+		}
+	}
+	if n == 0 {
+		R.Add(rule, "service / expiry sweep", "", report.Undecided, "no comparison of the current time with a stored time found outside the re-request builder (anchor)")
+	}
+	R.Require(rule, 1, "")
 }
